@@ -37,8 +37,10 @@ theorem revert_truncates_to_root_end (st : Store) (fid : Nat) (f : Bytes) (cmpOf
     (st.readOnly = true → f' = f) ∧
     (st.readOnly = false → f' = f.take st'.size ∧ (st'.size = 0 ∨ ∃ roots, rootAt f st'.size = some roots)) := by
   unfold revertStore at h
-  generalize (if st.size > rootsLen then st.size - 1 else st.size) = sz at h
   dsimp only at h
+  generalize (if (match scanRoots f true st.size with | .found e _ => e | _ => 0) > rootsLen
+      then (match scanRoots f true st.size with | .found e _ => e | _ => 0) - 1
+      else (match scanRoots f true st.size with | .found e _ => e | _ => 0)) = sz at h
   cases hs : scanRoots f true sz with
   | found e roots =>
     rw [hs] at h
